@@ -29,7 +29,7 @@ import (
 func DamageLayer(which string) func(r *ev.Run) {
 	return func(r *ev.Run) {
 		rng := gen.New(r.Seed, "damage-layer")
-		n := r.Pick(10, 250)
+		n := r.Pick(30, 300)
 		for s := 0; s < n; s++ {
 			damageSession(r, which, gen.New(r.Seed, fmt.Sprintf("damage-%d-%d", s, rng.Int63())), s)
 		}
